@@ -268,6 +268,23 @@ impl Check for BinanceL2Stream {
     type Case = L2Case;
     const NAME: &'static str = "binance_l2_stream";
 
+    fn normalise(mut case: L2Case) -> L2Case {
+        case.venues.truncate(3);
+        while case.venues.len() < 2 {
+            case.venues.push(Venue { changes: vec![], groups: vec![1], snapshot_sel: 0, start_offset: 0, perturb: Perturb::None });
+        }
+        for v in &mut case.venues {
+            v.changes.truncate(24);
+            v.groups.truncate(6);
+            if v.groups.is_empty() {
+                v.groups.push(1);
+            }
+            v.start_offset = v.start_offset.clamp(-3, 3);
+        }
+        case
+    }
+
+
     fn strategy(_tier: Tier) -> BoxedStrategy<L2Case> {
         (any::<bool>(), prop::collection::vec(venue(), 2..=3), prop::collection::vec(any::<u8>(), 0..80), prop::option::weighted(0.3, 0u8..20))
             .prop_map(|(futures, venues, interleave, unknown_symbol_after)| L2Case { futures, venues, interleave, unknown_symbol_after })
